@@ -2,6 +2,7 @@
 From Coq Require Import List NArith.
 From Muscle Require Import Common.LE Gw.Tunnel Gw.TunnelProofs Gw.TunnelSound Gw.TunnelSender Gw.TunnelComplete Gw.TunnelTheorems Gw.TunnelMulti.
 From Muscle Require Import Gw.MiniTunnel Gw.MiniTunnelProofs Gw.MiniTunnelDrain.
+From Muscle Require Import Gw.Packetized Gw.PacketizedProofs.
 Import ListNotations.
 Local Open Scope N_scope.
 
@@ -174,3 +175,46 @@ Example C12_mini_premises_nontrivial :
   /\ mrecv_all toy_inflate toy_rc (map (pair 5) (mr_packets toy_deflate toy_run)) = [(5, toy_m1); (5, toy_m2); (5, [Byte.x09])]
   /\ m_pid (fst (mrun toy_deflate toy_cfg (m_init 16777215) toy_ops)) = 1.
 Proof. exact toy_run_nontrivial. Qed.
+
+(* ---------------------------------------------------------------- PacketizedProxyDataIO (the TCP transport of testpackettunnel) *)
+
+(* an implementation of the premise "the transport delivers every packet once and in order": for every way
+   the child stream cuts the bytes up on either side, Read() hands over exactly the packets Write() accepted *)
+Theorem C12_packetized_write_stream :
+  forall mtu ops st st' out rs,
+    pw_ok st -> wops_nonempty ops ->
+    pwrites mtu st ops = (st', out, rs) ->
+    pw_ok st' /\ out ++ pw_rest st' = pw_rest st ++ frames (taken ops rs).
+Proof. exact packetized_write_stream. Qed.
+Print Assumptions C12_packetized_write_stream.
+
+Theorem C12_packetized_read_stream :
+  forall mtu script ps st stream st' stream' rs,
+    mtu < two32 -> Forall (pkt_ok mtu) ps -> Forall (fun x => mtu <= fst (fst x)) script ->
+    rep st stream ps ->
+    preads mtu st stream script = (st', stream', rs) ->
+    Forall (fun r => r <> None) rs
+    /\ exists ps', ps = handed rs ++ ps' /\ rep st' stream' ps'.
+Proof. exact packetized_read_stream. Qed.
+Print Assumptions C12_packetized_read_stream.
+
+Theorem C12_packetized_transport_perfect :
+  forall mtu wops wst out wrs script rst rest rrs,
+    mtu < two32 -> wops_nonempty wops ->
+    Forall (fun x => mtu <= fst (fst x)) script ->
+    pwrites mtu pw_init wops = (wst, out, wrs) ->
+    pw_buffered wst = false ->
+    preads mtu pr_init out script = (rst, rest, rrs) ->
+    rest = [] -> pr_hdr rst = [] ->
+    handed rrs = taken wops wrs /\ Forall (fun r => r <> None) rrs.
+Proof. exact packetized_transport_perfect. Qed.
+Print Assumptions C12_packetized_transport_perfect.
+
+Example C12_packetized_nontrivial :
+  let wops := [WWrite [Byte.x01; Byte.x02; Byte.x03] 2 0; WWrite [Byte.x09] 1 9; WWrite [Byte.x09] 9 9; WFlush 99] in
+  let script := [(8, 3, 9); (8, 0, 0); (8, 1, 1); (8, 9, 2); (8, 9, 9); (8, 9, 9)] in
+  let '(wst, out, wrs) := pwrites 8 pw_init wops in
+  let '(rst, rest, rrs) := preads 8 pr_init out script in
+  wops_nonempty wops /\ pw_buffered wst = false /\ rest = [] /\ pr_hdr rst = []
+  /\ wrs = [WTook 3; WTook 0; WTook 1] /\ handed rrs = [[Byte.x01; Byte.x02; Byte.x03]; [Byte.x09]].
+Proof. exact packetized_nontrivial. Qed.
